@@ -470,8 +470,26 @@ impl<F: Future> Future for Gate<F> {
         let waker: Waker = Arc::new(TaskWaker { id }).into();
         let mut icx = Context::from_waker(&waker);
         let prev = CUR_TASK.with(|c| c.replace(id));
-        let r = inner.poll(&mut icx);
+        let r = std::panic::catch_unwind(std::panic::AssertUnwindSafe(|| inner.poll(&mut icx)));
         CUR_TASK.with(|c| c.set(prev));
+        let r = match r {
+            Ok(r) => r,
+            Err(p) => {
+                // the task itself panicked (outside any catch_unwind of the code under test):
+                // record it, release the scheduler, and let tokio see the panic
+                this.done = true;
+                let mut g = sched();
+                g.in_flight = None;
+                g.tasks.remove(&id);
+                let w = g.driver_waker.take();
+                drop(g);
+                emit("task.panicked", id, 0);
+                if let Some(w) = w {
+                    w.wake();
+                }
+                std::panic::resume_unwind(p);
+            }
+        };
         let mut g = sched();
         g.in_flight = None;
         if r.is_ready() {
